@@ -81,16 +81,6 @@ type vTarget struct {
 	std  bool // input is a standard-program blob (otherwise a deblob-format blob)
 }
 
-func vAccountWithCode(code []byte) (types.ServiceAccount, types.OpaqueHash) {
-	hh := hash.Blake2bHash(code)
-	return types.ServiceAccount{
-		ServiceInfo:    types.ServiceInfo{CodeHash: hh, Balance: 1 << 40, MinItemGas: 10, MinMemoGas: 10},
-		PreimageLookup: types.PreimagesMapEntry{hh: code},
-		LookupDict:     types.LookupMetaMapEntry{{Hash: hh, Length: types.U32(len(code))}: {0}},
-		StorageDict:    types.Storage{},
-	}, hh
-}
-
 func vTargets() []vTarget {
 	core := types.CoreIndex(0)
 	return []vTarget{
